@@ -233,6 +233,13 @@ func init() {
 			for j := range paths {
 				paths[j] = genIgnPath(r)
 			}
+			exotic := false
+			if i >= 2*len(degenerateRuleLines) && r.Chance(5) {
+				// patterns outside the modelled fragment (brackets, backslashes, an unbalanced bracket that
+				// makes the regular expression invalid): judged for robustness only, not sent to the model
+				exotic = true
+				content = r.Pick([]string{"[ab]\n", "a[\n", "a]\n", "\\*\n", "foo\\\n", "\\\n", "[\n", "a\\b/c\n", "*.[ch]\n!x\\\n", "[!a]\n", "[^a]*\n", "{a,b}[\n"}) + content
+			}
 			rs, err, pan := parseSafe(content)
 			line := "ignore " + X(content)
 			for _, p := range paths {
@@ -276,7 +283,7 @@ func init() {
 					o += "f"
 				}
 				outs = append(outs, o)
-				if want := oExcluded(orules, p); want != res.Excluded {
+				if want := oExcluded(orules, p); !exotic && want != res.Excluded {
 					rep.AddOracle(OracleFailure{Property: "C03", Lane: "ignore", What: fmt.Sprintf("Excludes=%v but the segment-wise rule language says %v", res.Excluded, want), Input: map[string]string{"rulefile": content, "path": p}})
 				}
 				if res.Excluded {
@@ -285,9 +292,13 @@ func init() {
 					rep.Count("verdict:included")
 				}
 			}
-			reqs = append(reqs, line)
-			impl = append(impl, strings.Join(outs, " "))
-			human = append(human, sample)
+			if !exotic {
+				reqs = append(reqs, line)
+				impl = append(impl, strings.Join(outs, " "))
+				human = append(human, sample)
+			} else {
+				rep.Count("outcome:exotic-pattern")
+			}
 			// C16: the shared default rules are unaffected by parsing
 			for k, p := range probePaths {
 				now, _ := ignorefiles.DefaultRuleset.Excludes(p)
